@@ -179,9 +179,74 @@ fn wait_for_baton<'a>(mut g: std::sync::MutexGuard<'a, Option<State>>, me: usize
     }
 }
 
+/// E3: run `threads` freely (no baton); the hooks inside a10 are inactive, the
+/// points in harness code inject random yields/spins.
+pub fn run_free(threads: Vec<Box<dyn FnOnce() + Send>>, seed: u64) {
+    ABORT.store(false, Ordering::SeqCst);
+    ACTIVE.store(false, Ordering::SeqCst);
+    FREE_THREADS.store(threads.len(), Ordering::SeqCst);
+    FREE_MODE.store(true, Ordering::SeqCst);
+    let mut handles = Vec::new();
+    for (i, f) in threads.into_iter().enumerate() {
+        let s = seed ^ (i as u64).wrapping_mul(0x9E37_79B9_7F4A_7C15);
+        handles.push(
+            std::thread::Builder::new()
+                .name(format!("free-{i}"))
+                .spawn(move || {
+                    FREE_RNG.with(|r| r.set(s | 1));
+                    let r = std::panic::catch_unwind(std::panic::AssertUnwindSafe(f));
+                    FREE_THREADS.fetch_sub(1, Ordering::SeqCst);
+                    if let Err(p) = r {
+                        std::panic::resume_unwind(p);
+                    }
+                })
+                .expect("spawn"),
+        );
+    }
+    let mut panicked = None;
+    for h in handles {
+        if let Err(p) = h.join() {
+            panicked = Some(p);
+        }
+    }
+    FREE_MODE.store(false, Ordering::SeqCst);
+    FREE_THREADS.store(0, Ordering::SeqCst);
+    if let Some(p) = panicked {
+        std::panic::resume_unwind(p);
+    }
+}
+
+static FREE_MODE: AtomicBool = AtomicBool::new(false);
+thread_local! {
+    static FREE_RNG: Cell<u64> = const { Cell::new(0x1234_5678_9ABC_DEF1) };
+}
+
+fn free_jitter() {
+    let x = FREE_RNG.with(|r| {
+        let mut x = r.get();
+        x ^= x << 13;
+        x ^= x >> 7;
+        x ^= x << 17;
+        r.set(x);
+        x
+    });
+    match x % 8 {
+        0 => std::thread::yield_now(),
+        1 => {
+            for _ in 0..(x >> 8) % 200 {
+                std::hint::spin_loop();
+            }
+        }
+        _ => {}
+    }
+}
+
 /// A scheduling point.
 pub fn point(id: u32) {
     if !ACTIVE.load(Ordering::Relaxed) {
+        if FREE_MODE.load(Ordering::Relaxed) {
+            free_jitter();
+        }
         return;
     }
     let Some(me) = tid() else { return };
